@@ -26,7 +26,11 @@ RULE = ("routes: attribute assignment, trait_set, constructor keyword on a fresh
         "Enum(values='vals') whose governing attribute is replaced (Enum collections also mutated in place) between "
         "assignments and reads: every value READ lies in the domain the governing attributes declare at that moment, "
         "explicit and implicit defaults included; adaptable objects and adapters come in truthy / __bool__ False / "
-        "__len__ 0 flavours")
+        "__len__ 0 flavours; PYTHON-VALIDATOR ROUTE: x = Property(T) (validated by T's Python-level validate, setter gets "
+        "the validated value) for every trait term of the grid x the lattice and for random nestings, judged by the same "
+        "reference predicates; forward-referenced Instance('Name') nested 1-3 levels deep in List / Set / Dict / Tuple / "
+        "Either: histories with valid and invalid assignments and container mutations (append, extend, __setitem__, add) "
+        "on two objects of the class before and after the class is resolved: accepted <=> in the declared nested domain")
 TRUSTED = ["the reference predicates ref_domain / conv_ok of harness/props/c01.py (written from the documentation)",
            "calling a type object on a value, re.match, numpy.asarray of a list/tuple and numpy.can_cast are parameters "
            "of the model; their outcome is computed with the plain builtins / re / numpy and sent on the case line",
@@ -141,6 +145,21 @@ def generate(rng, tier):
     # Enum with a trait-named collection: the collection is replaced / mutated in place between assignments and reads
     for _ in range(ncomp // 4):
         yield dynamic_enum_case(rng)
+    # PYTHON-VALIDATOR ROUTE: x = Property(T) for every trait term of the grid and for random nestings: the assignment
+    # is validated by T's Python-level validate (the twin of the compiled validator the plain attribute uses), the
+    # setter receives the validated value; same reference oracle as for the plain attribute (implementation + oracle only)
+    for tt in singles:
+        order = list(L)
+        rng.shuffle(order)
+        for i in range(0, len(order), 12):
+            yield "#" + make_case("(Prop %s)" % tt, [(rng.choice(kinds), v) for v in order[i:i + 12]])
+    for _ in range(ncomp // 2):
+        tt = V.random_trait(rng, rng.randint(1, depth), mapped=rng.random() < 0.2)
+        ops = [(rng.choice(kinds), V.random_value_for(rng, tt, L)) for _ in range(rng.randint(2, 6))]
+        yield "#" + make_case("(Prop %s)" % tt, ops)
+    # forward-referenced Instance("Name") nested several levels deep in containers: resolution changes no verdict
+    for _ in range(ncomp // 3):
+        yield nested_fwd_case(rng)
     for _ in range(ncomp):
         tt = V.random_trait(rng, rng.randint(1, depth), mapped=False)
         ops = [(rng.choice(kinds), V.random_value_for(rng, tt, L)) for _ in range(rng.randint(2, 6))]
@@ -355,6 +374,12 @@ def ref_domain(t, w, ctx):
         return isinstance(w, dict)
     if h == "Set":
         return isinstance(w, set)
+    if h == "SetOf":
+        return isinstance(w, set) and all(ref_domain(t[1], x, ctx) for x in w)
+    if h == "DictOf":
+        return isinstance(w, dict) and all(ref_domain(t[1], k, ctx) and ref_domain(t[2], x, ctx) for k, x in w.items())
+    if h == "InstanceF":
+        return (t[1] == "1" and w is None) or isinstance(w, V.FwdP)
     raise AssertionError(t)
 
 
@@ -596,6 +621,14 @@ def build_class(decls, ctx):
     import traits.api as T
     ns = {"__repr__": lambda self: "<A>"}
     for name, term in decls:
+        if isinstance(term, list) and term[0] == "Prop":
+            # PYTHON-VALIDATOR ROUTE: x = Property(T) validates an assignment with T's Python-level validate and hands
+            # the VALIDATED value to the setter; setter / getter keep it in the instance dict under the same name
+            o = V.build_trait(term[1], ctx)
+            ns[name] = T.Property(o if isinstance(o, (T.TraitType, T.CTrait)) else T.Trait(o))
+            ns["_get_" + name] = (lambda n: lambda self: self.__dict__.get(n))(name)
+            ns["_set_" + name] = (lambda n: lambda self, v: self.__dict__.__setitem__(n, v))(name)
+            continue
         o = V.build_trait(term, ctx)
         if isinstance(o, (T.TraitType, T.CTrait)):
             ns[name] = o
@@ -975,6 +1008,257 @@ def run_e(cfg, opstr):
     return " ; ".join(outs), hits, tags
 
 
+# ------------------------------------------------------------------ forward references nested in containers
+
+FWD_OBJS = ["(inst 6 (6) () 11)", "(inst 6 (6) () 12)", "(inst 7 (7 6) () 13)"]
+
+
+def fwd_term(rng, depth, hashable_only=False):
+    """A nesting of List / SetOf / DictOf / Tuple / Either around a forward-referenced Instance, `depth` levels deep."""
+    if depth <= 0:
+        return "(InstanceF %d)" % (1 if rng.random() < 0.25 else 0)
+    r = rng.random()
+    if hashable_only or r < 0.3:
+        sub = fwd_term(rng, depth - 1, True)
+        return rng.choice(["(Tuple %s Int)", "(Tuple Int %s)", "(Tuple %s Int)", "(Tuple Str %s Int)"]) % sub
+    if r < 0.6:
+        return "(List %s)" % fwd_term(rng, depth - 1)
+    if r < 0.72:
+        return "(SetOf %s)" % fwd_term(rng, depth - 1, True)
+    if r < 0.87:
+        return "(DictOf Str %s)" % fwd_term(rng, depth - 1)
+    return rng.choice(["(Either 0 Str %s)", "(Either 0 %s Int)"]) % fwd_term(rng, depth - 1)
+
+
+def fwd_valid(rng, t, with_obj=False):
+    """A value term in the declared domain of t (with_obj: holding at least one non-None instance where possible)."""
+    if isinstance(t, str):
+        return {"Int": "(i %d)" % rng.randint(0, 5), "Str": rng.choice(["(s a)", "(s b)", "(s k)"])}[t]
+    h = t[0]
+    if h == "InstanceF":
+        return "N" if (t[1] == "1" and not with_obj and rng.random() < 0.3) else rng.choice(FWD_OBJS)
+    if h == "Tuple":
+        return "(t %s)" % " ".join(fwd_valid(rng, m, with_obj) for m in t[1:])
+    if h == "Either":
+        ms = [m for m in t[2:] if not isinstance(m, str)] if with_obj else t[2:]
+        return fwd_valid(rng, rng.choice(ms), with_obj)
+    n = rng.randint(1, 3) if (with_obj or rng.random() < 0.85) else 0
+    if h == "List":
+        return "(l %s)" % " ".join(fwd_valid(rng, t[1], with_obj) for _ in range(n)) if n else "(l)"
+    if h == "SetOf":
+        return "(st %s)" % " ".join(sorted(set(fwd_valid(rng, t[1], with_obj) for _ in range(n)))) if n else "(st)"
+    if h == "DictOf":
+        return "(dd %s)" % " ".join("(%s %s)" % (k, fwd_valid(rng, t[2], with_obj)) for k in ["(s a)", "(s b)", "(s c)"][:n]) if n else "(dd)"
+    raise AssertionError(t)
+
+
+def fwd_invalid(rng, t):
+    """A value term OUTSIDE the declared domain of t: valid except at one place, where the shape is wrong (a bare
+    instance / a number where a container is required, a wrong length, a wrong leaf)."""
+    if isinstance(t, str):
+        return {"Int": rng.choice(["(s x)", "(f 6)", "N"]), "Str": rng.choice(["(i 3)", "N"])}[t]
+    h = t[0]
+    if h == "InstanceF":
+        return rng.choice(["(i 3)", "(inst 2 (2) () 3)", "(s a)", "(t)", "(l)"] + ([] if t[1] == "1" else ["N"]))
+    if h == "Either":
+        return rng.choice(["(f 6)", "(t)", "(inst 2 (2) () 3)"])
+    here = rng.random() < 0.4
+    if h == "Tuple":
+        if here:
+            items = [fwd_valid(rng, m) for m in t[1:]]
+            return rng.choice([rng.choice(FWD_OBJS), "(i 3)", "(t %s)" % " ".join(items[:-1]) if len(items) > 1 else "(t)",
+                               "(t %s (i 1))" % " ".join(items), "(l %s)" % " ".join(items)])
+        j = rng.randrange(1, len(t))
+        return "(t %s)" % " ".join(fwd_invalid(rng, m) if i == j else fwd_valid(rng, m) for i, m in enumerate(t[1:], 1))
+    if here:
+        return rng.choice([rng.choice(FWD_OBJS), "(i 3)", "(t %s)" % rng.choice(FWD_OBJS), "(s ab)"])
+    n = rng.randint(1, 3)
+    j = rng.randrange(n)
+    if h == "List":
+        return "(l %s)" % " ".join(fwd_invalid(rng, t[1]) if i == j else fwd_valid(rng, t[1]) for i in range(n))
+    if h == "SetOf":
+        bad = fwd_invalid(rng, t[1])
+        if "(l" in bad or "(dd" in bad or "(st" in bad:
+            bad = rng.choice(FWD_OBJS) if t[1][0] != "InstanceF" else "(i 3)"
+        return "(st %s)" % " ".join(sorted(set([bad] + [fwd_valid(rng, t[1]) for _ in range(n - 1)])))
+    if h == "DictOf":
+        return "(dd %s)" % " ".join("(%s %s)" % (k, fwd_invalid(rng, t[2]) if i == j else fwd_valid(rng, t[2]))
+                                    for i, k in enumerate(["(s a)", "(s b)", "(s c)"][:n]))
+    raise AssertionError(t)
+
+
+def item_term(t):
+    """The declared item / value trait of a container term (None for the others)."""
+    if isinstance(t, list) and t[0] in ("List", "SetOf"):
+        return t[1]
+    if isinstance(t, list) and t[0] == "DictOf":
+        return t[2]
+    return None
+
+
+def nested_fwd_case(rng):
+    """`#n|-|trait term|ops`: ops are `<kind> <object index> <value term>`: set / tset / new (constructor keyword on a fresh
+    object that replaces object i) assign the attribute, app / ext / sit / add / dset mutate the stored container,
+    iapp / isit mutate its first inner container."""
+    tt = fwd_term(rng, rng.choice([1, 2, 2, 2, 3, 3]))
+    t = V.parse_sexp(tt)
+    ops = []
+
+    def assign(valid, with_obj=False):
+        v = fwd_valid(rng, t, with_obj) if valid else fwd_invalid(rng, t)
+        ops.append("%s %d %s" % (rng.choice(["set", "set", "tset", "new"]), 0 if rng.random() < 0.6 else 1, v))
+
+    def mutate(valid):
+        it = item_term(t)
+        if it is None:
+            return assign(valid)
+        inner = item_term(it)
+        if inner is not None and rng.random() < 0.4:
+            v = fwd_valid(rng, inner) if valid else fwd_invalid(rng, inner)
+            ops.append("%s %d %s" % (rng.choice(["iapp", "isit"]), 0 if rng.random() < 0.6 else 1, v))
+            return
+        v = fwd_valid(rng, it) if valid else fwd_invalid(rng, it)
+        k = {"List": rng.choice(["app", "ext", "sit", "app"]), "SetOf": "add", "DictOf": "dset"}[t[0]]
+        ops.append("%s %d %s" % (k, 0 if rng.random() < 0.6 else 1, "(l %s)" % v if k == "ext" else v))
+    for _ in range(rng.randint(0, 2)):              # before the class is resolved
+        assign(rng.random() < 0.3)
+    assign(True, with_obj=True)                     # a valid value holding an instance: resolves the forward reference
+    for _ in range(rng.randint(3, 8)):
+        r = rng.random()
+        if r < 0.4:
+            assign(False)
+        elif r < 0.55:
+            assign(True, with_obj=rng.random() < 0.5)
+        elif r < 0.85:
+            mutate(False)
+        else:
+            mutate(True)
+    return "#n|-|%s|%s" % (tt, ";".join(ops))
+
+
+def shape_of(t, depth=2):
+    """`List(Tuple)`: the outer container and the kinds of its members (two levels)."""
+    if isinstance(t, str):
+        return t
+    if t[0] == "InstanceF":
+        return "InstanceF"
+    if depth <= 1:
+        return t[0]
+    return "%s(%s)" % (t[0], ",".join(shape_of(m, depth - 1) for m in (t[2:] if t[0] == "Either" else t[1:])))
+
+
+def freeze(x):
+    """Structure of a stored value with the leaves by identity (to tell whether anything changed)."""
+    if isinstance(x, (list, tuple)):
+        return (type(x).__name__, tuple(freeze(y) for y in x))
+    if isinstance(x, (set, frozenset)):
+        return ("set", frozenset(freeze(y) for y in x))
+    if isinstance(x, dict):
+        return ("dict", tuple(sorted(((repr(k), freeze(v)) for k, v in x.items()))))
+    return x if isinstance(x, (int, float, str, type(None))) else ("obj", id(x))
+
+
+def run_n(tt, opstr):
+    """Every value / item the attribute accepts lies in the DECLARED nested domain and every value of the declared
+    domain is accepted - before and after the forward reference is resolved, for the object that triggered the
+    resolution and for every other object of the class; a rejected operation changes nothing."""
+    import traits.api as T
+    import warnings
+    ctx = V.Ctx()
+    t = V.parse_sexp(tt)
+    o = V.build_trait(t, ctx)
+    A = type("N", (T.HasTraits,), {"x": o, "count": T.Int(3), "__repr__": lambda self: "<N>"})
+    objs = {0: A(), 1: A()}
+    hits, outs, tags = [], [], {"nested-forward", "nested-forward:depth-%d" % tt.count("(")}
+    resolved = False
+    shape = shape_of(t)
+
+    def sig():
+        # the class is looked up by this very step when its value holds an instance
+        resolving = resolved or "(inst 6" in vs or "(inst 7" in vs
+        return ("forward-ref-resolution-changes-validation:" if resolving else "nested-container-validation:") + shape
+    for i, op in enumerate([x for x in opstr.split(";") if x.strip()]):
+        k, oi, vs = op.strip().split(" ", 2)
+        oi = int(oi)
+        vterm = V.parse_sexp(vs)
+        value = V.build_value(vterm, ctx)
+        obj = objs[oi]
+        before = dict((j, freeze(ob.x)) for j, ob in objs.items())
+        target, dom_t, judged = None, t, value
+        try:
+            with warnings.catch_warnings():
+                warnings.simplefilter("ignore")
+                cur = obj.x
+                if k in ("iapp", "isit"):
+                    inner = [c for c in (cur.values() if isinstance(cur, dict) else cur if isinstance(cur, (list, set)) else [])
+                             if isinstance(c, (list, dict))] if cur is not None else []
+                    if not inner or not isinstance(inner[0], list) or (k == "isit" and not inner[0]):
+                        outs.append("skip")
+                        continue
+                    dom_t = item_term(item_term(t))
+                    if k == "iapp":
+                        inner[0].append(value)
+                    else:
+                        inner[0][0] = value
+                elif k in ("app", "ext", "sit", "add", "dset"):
+                    dom_t = item_term(t)
+                    if k == "ext":
+                        judged = value[0]
+                    if (k in ("app", "ext", "sit") and not isinstance(cur, list)) or (k == "sit" and not cur) \
+                            or (k == "add" and not isinstance(cur, set)) or (k == "dset" and not isinstance(cur, dict)):
+                        outs.append("skip")
+                        continue
+                    if k == "app":
+                        cur.append(value)
+                    elif k == "ext":
+                        cur.extend(value)
+                    elif k == "sit":
+                        cur[0] = value
+                    elif k == "add":
+                        cur.add(value)
+                    else:
+                        cur["k"] = value
+                elif k == "set":
+                    obj.x = value
+                elif k == "tset":
+                    obj.trait_set(x=value)
+                else:
+                    target = A(x=value)
+            exc = None
+        except BaseException as e:  # noqa: B902
+            exc = e
+        tags.add("nested-forward:op-" + k)
+        where = "%s, step %d `%s` (%s; object %d%s); history %s" % (
+            tt, i, op.strip(), "forward reference resolved by an earlier step" if resolved else "forward reference not resolved yet",
+            oi, "" if oi == 0 else ", not the object that was assigned first", opstr)
+        in_dom = ref_domain(dom_t, judged, ctx)
+        if exc is not None:
+            en = V.exc_name(exc)
+            outs.append(en)
+            tags.add("nested-forward:rejected-" + ("resolved" if resolved else "unresolved"))
+            if before != dict((j, freeze(ob.x)) for j, ob in objs.items()):
+                hits.append(_hit("failed-assignment-had-effect:nested:%s" % shape, where + ": raised %s but a stored value changed" % en))
+            if en != "TraitError":
+                hits.append(_hit("foreign-exception:nested:%s:%s" % (en, shape), where))
+            elif in_dom:
+                hits.append(_hit(sig(), where + ": a value of the declared domain is REJECTED"))
+            continue
+        if target is not None:
+            objs[oi] = obj = target
+        outs.append("ok")
+        tags.add("nested-forward:accepted-" + ("resolved" if resolved else "unresolved"))
+        if not ref_domain(t, obj.x, ctx):
+            hits.append(_hit(sig(), where + ": ACCEPTED, and the attribute now holds %r, which is outside the declared domain" % (obj.x,)))
+        elif not in_dom and not ref_domain(dom_t, judged, ctx):
+            pass            # converted on the way in (True for an Int item): the stored value was judged above
+        for j, ob in objs.items():
+            if j != oi and before[j] != freeze(ob.x):
+                hits.append(_hit("other-object-changed:nested:%s" % shape, where))
+        if "(inst 6" in vs or "(inst 7" in vs:
+            resolved = True         # an accepted value holding an instance: Instance("Name").validate has looked the class up
+    return " ; ".join(outs), hits, tags
+
+
 def has_any_member(t):
     if isinstance(t, str):
         return False
@@ -989,6 +1273,8 @@ def run_impl(case):
         return run_r(a, b)
     if kind == "e":
         return run_e(a, b)
+    if kind == "n":
+        return run_n(a, b)
     assert kind == "a"
     mode = V.falsy_mode(a + "|" + b)
     with V.falsy(mode):
@@ -1013,6 +1299,11 @@ def run_a(env, a, b):
         vterm = V.parse_sexp(vs)
         value = V.build_value(vterm, ctx)
         t = terms[name]
+        route = None
+        if isinstance(t, list) and t[0] == "Prop":
+            route, t = "property", t[1]
+            tags.add("route:property")
+        nhits = len(hits)
         hd = V.trait_head(t)
         tags.add("value:" + V.value_class(vterm).split(":")[0])
         tags.add("op:" + k)
@@ -1043,7 +1334,7 @@ def run_a(env, a, b):
             # ---- oracle: a failed assignment has no effect at all
             after = obj.__dict__
             changed = set(after) != set(before) or any(after[x] is not before[x] for x in before)
-            if isinstance(t, list) and t[0] in ("Either", "CompoundH") and has_mapped_member(t) and en != "TraitError" \
+            if route != "property" and isinstance(t, list) and t[0] in ("Either", "CompoundH") and has_mapped_member(t) and en != "TraitError" \
                     and en not in protocol_exceptions(vterm, set()) and (changed or en == "KeyError"):
                 # an exception other than TraitError out of the post_setattr chain of a mapped compound: the dict entry
                 # (or the default) is already written and the shadow is stale, so the rest of this history is not
@@ -1070,14 +1361,27 @@ def run_a(env, a, b):
                 outs.append("TraitError")
             else:
                 allowed = protocol_exceptions(vterm, set())
-                if en not in allowed and en == "TypeError" and has_any_member(t):
+                if en not in allowed and en == "TypeError" and has_any_member(t) and not (route == "property" and has_module_member(t)):
                     hits.append(_hit("compound-any-member-not-callable", where + ": raised TypeError ('NoneType' object is not "
                                      "callable): TraitCompound calls the validate attribute of its Any member, which is None"))
+                elif en not in allowed and route == "property" and en == "ValueError" and "(FunctionH 2)" in V.show_sexp(t):
+                    # (F43c) TraitFunction.validate re-raises what the validator function raises
+                    hits.append(_hit("validator-function-raises", where + ": the validator function raises ValueError, "
+                                     "TraitFunction.validate lets it out (the compiled path turns it into a TraitError)"))
+                elif en not in allowed and route == "property" and en == "ValueError" and eq_raises(vterm):
+                    # (F43b) the Python validators of the enumerations test `value in self.values` unguarded
+                    hits.append(_hit("value-eq-raises-in-enumeration-member", where + ": the == of the value raises ValueError, "
+                                     "which TraitEnum / BaseEnum.validate (a member of this definition) lets out"))
+                elif en not in allowed and route == "property" and en == "TypeError" and has_module_member(t):
+                    # (F44) Module defines no validate method: TraitCompound.validate calls None
+                    hits.append(_hit("compound-member-has-no-python-validate:Module", where + ": raised TypeError: the Module member of "
+                                     "the definition has a fast validator but no Python-level validate, TraitCompound.validate calls None"))
                 elif en not in allowed:
                     hits.append(_hit("foreign-exception:%s:%s" % (raiser(t, value, ctx, obj, en), en),
                                      where + ": raised %s, which is neither TraitError nor raised by the value's own "
                                      "__index__/__float__/__complex__ or an overflowing conversion" % en))
                 outs.append("exc " + en)
+            route_sigs(hits, nhits, route)
             continue
         if k == "new":
             obj = target
@@ -1091,10 +1395,15 @@ def run_a(env, a, b):
             hits.append(_hit("accepted-but-not-stored:%s" % hd, where))
         else:
             # ---- oracle: what is stored lies in the declared domain and is the documented conversion
-            hits += judge_stored(t, value, stored, ctx, obj, where)
+            if route == "property" and t != "Any" and getattr(V.as_ctrait(V.build_trait(t, ctx)).handler, "validate", None) is None:
+                # (F44) the trait type defines no Python-level validate at all: Property(T) validates nothing
+                if not ref_domain(t, stored, ctx):
+                    hits.append(_hit("trait-has-no-python-validate:%s" % hd, where + ": stored %s" % V.show_value(stored, ctx)))
+            else:
+                hits += judge_stored(t, value, stored, ctx, obj, where)
             if getattr(obj, name) is not stored:
                 hits.append(_hit("readable-is-not-stored:%s" % hd, where))
-            ok, mv = mapped_ref(t, stored, ctx)
+            ok, mv = mapped_ref(t, stored, ctx) if route != "property" else (False, None)   # a Property has no shadow
             if ok and not shadow_spoilt and not ((name + "_") in d and same(d[name + "_"], mv, ctx)):
                 hits.append(_hit("shadow-is-not-map-of-value:%s" % hd, where + ": shadow %s" % (
                     V.show_value(d.get(name + "_"), ctx) if (name + "_") in d else "missing")))
@@ -1104,8 +1413,30 @@ def run_a(env, a, b):
                 continue
             if x not in before or x not in d or d[x] is not before[x]:
                 hits.append(_hit("other-attribute-changed:%s" % hd, where + ": attribute %s changed" % x))
+        route_sigs(hits, nhits, route)
         outs.append("ok " + state_of(obj, names, ctx))
     return " ; ".join(outs), hits, tags
+
+
+# root causes that are the same on every route (known findings F42, compound-any, F2): reported under their own name
+ROUTE_INDEPENDENT = ("coerce-fast-skips-conversion", "compound-any-member-not-callable", "float-range-accepts-nan")
+
+
+def has_module_member(t):
+    return "Module" in V.show_sexp(t).replace("(", " ").replace(")", " ").split()
+
+
+def eq_raises(vterm):
+    """Does the value term hold an object whose == raises / has no truth value (ndarray, BadEq)."""
+    return any(isinstance(x, list) and x and x[0] in ("nd", "arr", "badeq", "ni", "nf", "nc", "nb") for x in V.sub_values(vterm, []))
+
+
+def route_sigs(hits, start, route):
+    """Hits of a step that went through a Python-validator route carry the route in their signature."""
+    if route is not None:
+        for h in hits[start:]:
+            if h["signature"] not in ROUTE_INDEPENDENT:
+                h["signature"] = "python-route:%s:%s" % (route, h["signature"])
 
 
 def nontrivial(case, out):
